@@ -55,7 +55,7 @@ fn grid_forms() -> &'static Vec<String> {
                 _ => {}
             }
         }
-        v.extend(["K^0.5", "K^2", "K^3", "2^K", "K/3", "K*0.1", "K%7", "1/K", "K°", "K!", "-K^0.5"].iter().map(|s| s.to_string()));
+        v.extend(["K^0.5", "K^2", "K^3", "2^K", "K/3", "K*0.1", "K%7", "1/K", "K°", "K!", "-K^0.5", "ilog(K*K,K)", "ilog(K^3,K)", "ilog(K,2)", "ilog(K,10)", "ilog(K*K+1,K)", "ilog(K*K-1,K)", "sqrt(K*K)", "root(3,K^3)", "log(K*K,K)"].iter().map(|s| s.to_string()));
         v
     })
 }
